@@ -43,7 +43,10 @@ def rule_drain(ctx):
     rule_cache_append(ctx, R)
     rule_no_narrowing(ctx, R)
     import c03run
-    c03run.rule(ctx, R)
+    if c03run.rule(ctx, R):
+        # decided by evaluation (every world of rules/c03run.py): the shape obligations on cache_* / analyze_* below are the
+        # fallback for a runner that leaves the evaluator's subset
+        return
     # a definition is lifted - and its lifting reports are produced - at most once: not again when its graph is cached,
     # and not again when an earlier attempt failed (its reports are cached then; every further reference by another
     # definition would otherwise display the same error once more)
@@ -139,7 +142,22 @@ def canon_main(ctx, R):
                 mp[n["pat"]["name"]] = "sarif_writer"
             elif t.startswith("Cli::parse()"):
                 mp[n["pat"]["name"]] = "options"
-        if n["k"] == "Local" and n["pat"]["k"] == "PTuple" and n["init"] is not None and "AnalysisRunner::new(" in render(n["init"]).replace(" ", ""):
+        def builds_runner(e_, at_):
+            # the builder chain may be split at a `let`: follow the receiver chain to its head and through its definition
+            le_ = let_env(fn["body"], at_)
+            for _ in range(4):
+                if "AnalysisRunner::new(" in render(e_).replace(" ", ""):
+                    return True
+                h_ = strip(e_)
+                while h_["k"] == "MethodCall":
+                    h_ = strip(h_["recv"])
+                if h_["k"] == "Path" and h_["path"] in le_:
+                    e_ = le_[h_["path"]]
+                    continue
+                return False
+            return False
+
+        if n["k"] == "Local" and n["pat"]["k"] == "PTuple" and n["init"] is not None and builds_runner(n["init"], n):
             names = [x["name"] for x in n["pat"]["elems"] if x["k"] == "PIdent"]
             if len(names) == 2:
                 mp[names[0]] = "runner"
